@@ -140,9 +140,8 @@ Definition intersect_violation (cfg : rel_cfg) (P : registry) (a b : nat) (v : v
 Lemma F24_current : complement_violation current_cfg reg_F24 4 0 v_F24 = true.
 Proof. vm_compute. reflexivity. Qed.
 
-(* F25 through intersect_types: fn(int)->int /\ fn(bin)->int = never although fn(int|bin)->int is in both *)
-Lemma F25_intersect_as_found : intersect_violation f55_cfg reg_F25fn 3 4 (VFun 6) = true.
-Proof. vm_compute. reflexivity. Qed.
+(* F25 through intersect_types: fn(int)->int /\ fn(bin)->int used to be `never` although fn(int|bin)->int is
+   in both; since 79f9965 (F25b) intersect_pair builds the exact meet fn(int|bin)->int *)
 Lemma F25_intersect_repaired : intersect_violation current_cfg reg_F25fn 3 4 (VFun 6) = false.
 Proof. vm_compute. reflexivity. Qed.
 
